@@ -36,7 +36,9 @@ type wsMessage struct {
 
 // later: when not nil, Config.Features reads a box that holds `features` until the connection is
 // acknowledged and `*later` from then on — the environment changes while the connection lives
-func openWS(api *apifu.API, features graphql.FeatureSet, proto string, later *graphql.FeatureSet) *wsSession {
+// inits: the payloads' feature lists of the connection_init messages to send, one after the other
+// (nil: one init with an empty payload)
+func openWS(api *apifu.API, features graphql.FeatureSet, proto string, later *graphql.FeatureSet, inits [][]string) *wsSession {
 	s := &wsSession{api: api, proto: proto}
 	var val interface{} = features
 	var box *featBox
@@ -53,9 +55,21 @@ func openWS(api *apifu.API, features graphql.FeatureSet, proto string, later *gr
 		panic(fmt.Sprintf("websocket dial: %v", err))
 	}
 	s.conn = conn
-	s.send(map[string]interface{}{"type": "connection_init", "payload": map[string]interface{}{}})
-	if m := s.read(); m.Type != "connection_ack" {
-		panic("expected connection_ack, got " + m.Type)
+	payloads := []map[string]interface{}{{}}
+	if inits != nil {
+		payloads = nil
+		for _, fs := range inits {
+			if fs == nil {
+				fs = []string{}
+			}
+			payloads = append(payloads, map[string]interface{}{"features": fs})
+		}
+	}
+	for _, p := range payloads {
+		s.send(map[string]interface{}{"type": "connection_init", "payload": p})
+		if m := s.read(); m.Type != "connection_ack" {
+			panic("expected connection_ack, got " + m.Type)
+		}
 	}
 	if box != nil {
 		box.set(*later)
